@@ -340,3 +340,8 @@ def run(ctx):
     rule_c(ctx)
     rule_d(ctx)
     rule_e(ctx)
+    # FVDivergence scales the fluxes with grid.face_vol: the face areas must be the products of the other axes' voxel sizes (C07.d)
+    from . import c07
+    from .common import shared
+
+    shared(ctx, "C06.a", c07.rule_d, why="divergence = sum of flux times face area uses Grid.face_vol")
